@@ -236,10 +236,17 @@ def _validate(datum, schema, named_schemas, field, raise_errors, options):
         if logical_type:
             prepare = LOGICAL_WRITERS.get(logical_type)
             if prepare:
-                datum = prepare(datum, schema)
+                try:
+                    datum = prepare(datum, schema)
+                except ValueError:
+                    # The value cannot be converted for this logical type (e.g.
+                    # a string that is no ISO date), so it does not conform
+                    result = False
 
         validator = VALIDATORS.get(record_type)
-        if validator:
+        if result is False:
+            pass
+        elif validator:
             result = validator(
                 datum,
                 schema=schema,
